@@ -6,6 +6,8 @@ operation list with `run`.
 op := ["start", h, task, type, fields] | ["enter", h] | ["exit", h, exn|None] | ["ctxenter", h] | ["ctxexit"]
     | ["finish", h, exn|None] | ["log", type, fields] | ["actlog", h, type, fields] | ["tb", exn]
     | ["add", dests] | ["remove", id] | ["globals", fields] | ["probe"]
+    | ["mknew", slot, type, fields] | ["mwrite", slot]   Message.new(...) built in one place, .write() called elsewhere
+                                        (possibly another thread): it belongs where it is WRITTEN; model: a log op there
     | ["register", cls, extractor]      register_exception_extractor in the middle of the run (model: the
                                         configuration changes between two segments of the operation list)
 case := {"classes", "registry", "ops": [op...]}     (one execution context)
@@ -56,11 +58,26 @@ def dest_ids(case):
     return [d[0] for c, o in ctx_ops(case) if o[0] == "add" for d in o[1] if d[1][0] not in ("file",)]
 
 
+def model_ops(case):
+    """the operations as the model sees them: a message object built in one place and written in another is a
+    plain log operation where it is written"""
+    built, out = {}, []
+    for c, o in ctx_ops(case):
+        if o[0] == "mknew":
+            built[o[1]] = o
+        elif o[0] == "mwrite":
+            b = built[o[1]]
+            out.append((c, ["log", b[2], b[3]]))
+        else:
+            out.append((c, o))
+    return out
+
+
 def segments(case):
     """[(registry in force, [(ctx, op)])]: the operation list cut at every mid-run extractor registration"""
     reg = list(case.get("registry", []))
     segs = [(list(reg), [])]
-    for c, o in ctx_ops(case):
+    for c, o in model_ops(case):
         if o[0] == "register":
             reg = reg + [[o[1], o[2]]]
             segs.append((list(reg), []))
@@ -135,6 +152,11 @@ class _Runner(object):
                 it.call("finish", it.actions[o[1]].finish, exc)
         elif k == "log":
             it.call("log_message", el.log_message, message_type=progs.type_name(o[1]), **it.fields(o[2]))
+        elif k == "mknew":
+            self.built = getattr(self, "built", {})
+            self.built[o[1]] = it.call("Message.new", el.Message.new, message_type=progs.type_name(o[2]), **it.fields(o[3]))
+        elif k == "mwrite":
+            it.call("Message.write", self.built[o[1]].write)
         elif k == "actlog":
             it.call("Action.log", it.actions[o[1]].log, message_type=progs.type_name(o[2]), **it.fields(o[3]))
         elif k == "tb":
@@ -261,8 +283,59 @@ def project(case, obs):
     return {"dests": obs["dests"], "probes": obs["probes"], "outcome": None}
 
 
+def attribution(case, msgs):
+    """statement: every numbered message (field f19 >= 1000) and every started action belongs to the action that was
+    current in ITS execution context when it was logged/started (judged from the script alone), else it is a task of its own"""
+    where = {}
+    for m in msgs:
+        if m.get("action_status") == "started" and isinstance(m.get("f19"), int) and m["f19"] < 1000:
+            where[m["f19"]] = (m.get("task_uuid"), list(m.get("task_level", []))[:-1])
+    stacks = {}
+    expect = {}         # marker -> handle or None
+    for c, o in model_ops(case):
+        st = stacks.setdefault(c, [])
+        cur = st[-1] if st else None
+        k = o[0]
+        if k in ("enter", "ctxenter", "runenter"):
+            st.append(o[1])
+        elif k == "exit":
+            while st and st[-1] != o[1]:
+                st.pop()
+            if st:
+                st.pop()
+        elif k in ("ctxexit", "runexit"):
+            if st:
+                st.pop()
+        elif k == "log":
+            for a, v in o[2]:
+                if a == 19 and isinstance(v.get("i"), int) and v["i"] >= 1000:
+                    expect[v["i"]] = cur
+        elif k == "start":
+            expect[o[1]] = None if o[2] else cur
+    for m in msgs:
+        mk = m.get("f19")
+        if not isinstance(mk, int) or mk not in expect:
+            continue
+        if mk < 1000 and m.get("action_status") != "started":
+            continue
+        h = expect[mk]
+        lvl = list(m.get("task_level", []))
+        own = lvl[:-1] if mk >= 1000 else lvl[:-2]
+        what = "message #%d" % mk if mk >= 1000 else "action #%d" % mk
+        if h is None:
+            if own != []:
+                return "%s was logged with no current action in its context but sits inside an action (level %r)" % (what, lvl)
+        else:
+            if h not in where:
+                continue
+            if (m.get("task_uuid"), own) != where[h]:
+                return "%s was logged while action #%d was current in its context, but sits at %r of task %s (action #%d is %r of %s)" % (
+                    what, h, lvl, str(m.get("task_uuid"))[:8], h, where[h][1], str(where[h][0])[:8])
+    return None
+
+
 # ---------------------------------------------------------------------------
-def gen_script(rng, late_add=False, n_ops=14, fault=0.5, p_register=0.0, p_exn=0.3):
+def gen_script(rng, late_add=False, n_ops=14, fault=0.5, p_register=0.0, p_exn=0.3, p_finish_open=0.0):
     g = progs.Gen(rng)
     g.class_ids = g.gen_classes(3) + [2, 8, 9]
     dests = progs.gen_dests(rng, g, rng.randrange(1, 3), fault)
@@ -272,12 +345,17 @@ def gen_script(rng, late_add=False, n_ops=14, fault=0.5, p_register=0.0, p_exn=0
     created = []        # actions started, not yet entered/finished
     open_with = []      # entered with __enter__, innermost last
     nh = [0]
+    nm = [0]
 
     def fields():
         return g.fields(2, 32, 40)
     for i in range(n_ops):
         r = rng.random()
-        if r < 0.25:
+        if open_with and rng.random() < p_finish_open:
+            # finish() called explicitly on an action that stays current: what is started or logged next still
+            # belongs to it (after its end message)
+            ops.append(["finish", rng.choice(open_with), g.exn() if rng.random() < 0.3 else None])
+        elif r < 0.25:
             nh[0] += 1
             ops.append(["start", nh[0], rng.random() < 0.1, rng.randrange(10, 14), fields() + [[19, {"i": nh[0]}]]])
             created.append(nh[0])
@@ -290,13 +368,14 @@ def gen_script(rng, late_add=False, n_ops=14, fault=0.5, p_register=0.0, p_exn=0
             h = open_with.pop()
             ops.append(["exit", h, g.exn() if rng.random() < p_exn else None])
         elif r < 0.8:
+            nm[0] += 1
             if rng.random() < p_register:
                 # an extractor registered in the middle of the run, possibly for a class whose subclasses
                 # (or which itself) already failed an action or went through write_traceback
                 x = ["fields", g.fields(2, 40, 46)] if rng.random() < 0.85 else ["raise", g.exn(cls=rng.choice([8, 9]))]
                 ops.append(["register", rng.choice(g.class_ids + [2]), x])
             else:
-                ops.append(["log", rng.randrange(10, 14), fields()])
+                ops.append(["log", rng.randrange(10, 14), fields() + [[19, {"i": 1000 + nm[0]}]]])
         elif r < 0.85:
             ops.append(["tb", g.exn()])
         elif late_add and r < 0.95 and not any(o[0] == "add" for o in ops):
@@ -331,10 +410,24 @@ def gen_script_mt(rng, n_ops=16):
     created = []                       # handles started, not yet entered
     open_with = {c: [] for c in range(1, nctx + 1)}
     nh = [0]
+    nm = [0]
+    built = []                         # message objects built with Message.new, not yet written
+
+    def marker():
+        nm[0] += 1
+        return [[19, {"i": 1000 + nm[0]}]]
     for i in range(n_ops):
         c = rng.randrange(1, nctx + 1)
         r = rng.random()
-        if r < 0.3:
+        if rng.random() < 0.12:
+            # a message object built here ...
+            slot = nm[0] + 500
+            ops.append([c, ["mknew", slot, rng.randrange(10, 14), g.fields(1, 32, 36) + marker()]])
+            built.append(slot)
+        elif built and rng.random() < 0.25:
+            # ... and written later, by whichever context gets to it (a queue hand-off, a callback)
+            ops.append([c, ["mwrite", built.pop(rng.randrange(len(built)))]])
+        elif r < 0.3:
             nh[0] += 1
             ops.append([c, ["start", nh[0], rng.random() < 0.15, rng.randrange(10, 14), [[19, {"i": nh[0]}]]]])
             created.append(nh[0])
@@ -350,11 +443,13 @@ def gen_script_mt(rng, n_ops=16):
             h = rng.choice([h for c2 in open_with for h in open_with[c2]])
             ops.append([c, ["runenter", h]])
             ops.append([c, ["probe"]])
-            ops.append([c, ["log", rng.randrange(10, 14), g.fields(1, 32, 36)]])
+            ops.append([c, ["log", rng.randrange(10, 14), g.fields(1, 32, 36) + marker()]])
             ops.append([c, ["runexit"]])
         else:
-            ops.append([c, ["log", rng.randrange(10, 14), g.fields(1, 32, 36)]])
+            ops.append([c, ["log", rng.randrange(10, 14), g.fields(1, 32, 36) + marker()]])
         ops.append([c, ["probe"]])
+    for slot in built:
+        ops.append([rng.randrange(1, nctx + 1), ["mwrite", slot]])
     for c in open_with:
         while open_with[c]:
             ops.append([c, ["exit", open_with[c].pop(), None]])
